@@ -35,6 +35,8 @@ def main():
         patch = os.path.join(src, "patch.diff")
         demo = os.path.join(src, "demo.rs")
         meta_txt = open(os.path.join(src, "notes.txt")).read() if os.path.exists(os.path.join(src, "notes.txt")) else ""
+        if not meta_txt and os.path.exists(os.path.join(dst, "meta.json")):
+            meta_txt = json.load(open(os.path.join(dst, "meta.json"))).get("needs_to_manifest", "")      # re-run of a stored seed
     else:
         patch = os.path.join(src, x + ".patch.diff")
         demo = os.path.join(src, "demo_%s.rs" % x)
